@@ -167,6 +167,28 @@ def fd_registered():
                               "a sequence of primaries on one handler was not answered one reply each, in order, with matching system bytes")
             finally:
                 H.shutdown(proto, conn)
+        # a library handler that sends its reply itself before running user code: S2F41 (host command) answers S2F42 'finish later'
+        # and then runs the remote command's callback - whatever that callback does, the primary is answered ONCE (D39)
+        if kind == "equipment":
+            import secsgem.gem
+            for label, cb, body_params in (("callback-raises", lambda **kw: (_ for _ in ()).throw(RuntimeError("command failed")), [("SPEED", 3)]),
+                                           ("callback-misses-a-parameter", lambda SPEED, LOAD: None, [("SPEED", 3)]),
+                                           ("callback-fine", lambda **kw: None, [("SPEED", 3)])):
+                total += 1
+                with H.virtual_timers():
+                    handler, proto, conn = H.make_gem(kind)
+                    try:
+                        H.gem_to_communicating(handler, proto, conn)
+                        handler.remote_commands["GO"] = secsgem.gem.RemoteCommand("GO", "go", ["SPEED", "LOAD"], 5001)
+                        handler.callbacks.rcmd_GO = cb
+                        body = R.encode(("L", [("A", "GO"), ("L", [("L", [("A", n), ("U1", [v])]) for n, v in body_params])]))
+                        conn.feed(H.frame(0, 0x5151, 2, 41, True, body))
+                        got = [(f["stream"], f["function"], f["system"]) for f in conn.frames() if f["stype"] == 0 and f["system"] == 0x5151]
+                        if len(got) != 1 or got[0][:2] != (2, 42):
+                            fails.add("self-replying-handler.exactly-one-reply", {"handler": kind, "message": "S2F41 GO", "case": label, "replies": got},
+                                      "S2F41 was answered more than once (S2F42 and then an abort) or not by S2F42")
+                    finally:
+                        H.shutdown(proto, conn)
         # the callback table changes BETWEEN messages for the same function, through both public interfaces
         # (register/unregister_stream_function and attribute assignment on handler.callbacks): the next message must see the new table
         with H.virtual_timers():
@@ -221,7 +243,7 @@ def fd_registered():
     for f in fails:
         by.setdefault(f["obligation"], f)
     names = ["callback-raises.abort-once", "callback-none.no-reply", "callback-reply.exactly-once", "no-w-bit.no-reply", "sequence.one-reply-each-in-order",
-             "table-change-between-messages", "primary-after-own-timeout-answered"]
+             "table-change-between-messages", "primary-after-own-timeout-answered", "self-replying-handler.exactly-one-reply"]
     obs = [{"name": n, "ok": n not in by, "witness": by[n]["witness"] if n in by else None, "detail": by[n]["detail"] if n in by else ""} for n in names]
     return {"obligations": obs, "domain": "2 handlers x 5 functions x 3 callback behaviours x W-bit + register/unregister and burst sequences", "size": total,
             "exhaustive": True, "samples": [{"callback": "raises", "expect": "SxF0"}]}
